@@ -22,7 +22,8 @@ EXPLANATION = (
     ' Fourth round: normalize / denormalize may be table-driven, a membership test of the word in a text is a substring test; the line is handed to the reader as written (no conversion of the whole line).'
     ' Fifth round: read_auto yields every tree line it parses; all ways a writer formats one record kind are the same sequence of fields.'
     ' Sixth and seventh round: R8.6 templates / module state, R8.7 feature members on both feature classes, atoms built from the text read, the AUTO reader chosen by how the file name ends.'
-    " Eighth round: every AUTO line pair is taken by itself (R8.5), the line reader's node factory asks the grammar with the children it stores (R8.3), children are found by identity (R8.4).")
+    " Eighth round: every AUTO line pair is taken by itself (R8.5), the line reader's node factory asks the grammar with the children it stores (R8.3), children are found by identity (R8.4)."
+    ' Ninth and tenth round: no AUTO line is refused by counting its brackets; the [conj] repair cuts only after a bracket; escaping driven by literal tables is read as the map it is, and a return from inside the loop over such a table is reported.')
 TRUSTED = ['CPython ast', 'sa/pysym.py path walker', 'rule table DESIGN.md C08']
 
 AUTO = 'depccg/printer/auto.py'
